@@ -291,7 +291,9 @@ distinct = distinct positions / names / strings; oracle = reference successor on
         if i % 128 == 1 {
             crate::props::poison::run(i as u64);
         }
-        let y = rng.range(1991, 2100) as i64;
+        // mostly the radar era; a sixth of the names anywhere in the four-digit years (a date beyond
+        // 2149 does not fit a 16-bit day count, one before 1970 is negative)
+        let y = if rng.chance(1, 6) { rng.range(1, 9999) as i64 } else { rng.range(1991, 2100) as i64 };
         let mo = rng.range(1, 12) as u32;
         let d = match rng.below(4) {
             0 => cal::days_in_month(y, mo),
